@@ -12,9 +12,11 @@ theorem needs that bound).  Offsets are written as the macros expand them:
 * `grow c` is `(size_t)(c * exp_factor)`; the driver instantiates it with `Float32`.
 * Elements handed in by the caller are byte lists `e`; the C code reads exactly `data_length`
   bytes from them (precondition of the API: the caller's buffer has that many bytes).
-* Byte counts handed to the allocator (`capacity * data_length`) are natural numbers here; the
-  model does not describe `size_t` wrap-around of that product (documented boundary: it needs a
-  live buffer of more than 2^62 bytes).
+* Byte counts handed to the allocator (`capacity * data_length`) are natural numbers.  At
+  construction the guard of `new_conf` bounds the product by `CC_MAX_ELEMENTS < 2^64`
+  (`new_ok`); `expand_capacity` has no such guard, so for it the model does not describe
+  `size_t` wrap-around of `new_capacity * data_length` (that needs a live buffer of more than
+  2^62 bytes).
 * A block obtained from `mem_alloc` is filled with `poison` (the harness allocator does that), a
   block from `mem_calloc` with 0. -/
 namespace CC
@@ -60,10 +62,13 @@ def GrowOk (a : ArraySized) : Prop := ∀ c, a.grow c ≤ CC_MAX_ELEMENTS
 instance (a : ArraySized) : Decidable a.Inv := by unfold Inv; infer_instance
 
 /-- `cc_array_sized_new_conf`; `exGe n` is the float comparison `ex >= n` on the effective
-expansion factor -/
+expansion factor.  The second guard (repair A9) rejects element size 0 and every capacity whose
+buffer size in bytes `capacity * element_size` would exceed `CC_MAX_ELEMENTS` (so the product
+handed to `mem_alloc` cannot wrap around `size_t`). -/
 def new (dl cap : Nat) (grow : Nat → Nat) (exGe : Nat → Bool) (m : Mem) :
     Stat × Option ArraySized × Mem :=
   if cap = 0 || exGe (CC_MAX_ELEMENTS / cap) then (.errInvalidCapacity, none, m) else
+  if dl = 0 || cap > CC_MAX_ELEMENTS / dl then (.errInvalidCapacity, none, m) else
   let a1 := m.alloc
   if !a1.1 then (.errAlloc, none, a1.2) else
   let a2 := a1.2.alloc
@@ -437,18 +442,18 @@ def zipRemove (it : Iter) (a1 a2 : ArraySized) (m : Mem) :
     (.ok, some (r1.2.1.getD [], r2.2.1.getD []), { index := wdec it.index, lastRemoved := true }, r1.2.2.1, r2.2.2.1, r2.2.2.2)
   else (.errValueNotFound, none, it, a1, a2, m)
 
-/-- `cc_array_sized_zip_iter_add`: the cursor is advanced first (`index = iter->index++`), the
-two growth checks short-circuit left to right, the statuses of the two `add_at` calls are ignored -/
+/-- `cc_array_sized_zip_iter_add` (after repair A8): the two growth checks short-circuit left to
+right and return `CC_ERR_ALLOC` without touching the cursor; the statuses of the two `add_at` calls
+are ignored; the cursor is advanced last -/
 def zipAdd (it : Iter) (a1 a2 : ArraySized) (e1 e2 : Buf Nat) (m : Mem) : Stat × Iter × ArraySized × ArraySized × Mem :=
   let index := it.index
-  let it := { it with index := it.index + 1 }
   let x1 := if a1.size = a1.capacity then expandCapacity a1 m else (.ok, a1, m)
   if x1.1 ≠ .ok then (.errAlloc, it, x1.2.1, a2, x1.2.2) else
   let x2 := if a2.size = a2.capacity then expandCapacity a2 x1.2.2 else (.ok, a2, x1.2.2)
   if x2.1 ≠ .ok then (.errAlloc, it, x1.2.1, x2.2.1, x2.2.2) else
   let r1 := addAt x1.2.1 e1 index x2.2.2
   let r2 := addAt x2.2.1 e2 index r1.2.2
-  (.ok, it, r1.2.1, r2.2.1, r2.2.2)
+  (.ok, { it with index := it.index + 1 }, r1.2.1, r2.2.1, r2.2.2)
 
 /-- `cc_array_sized_zip_iter_replace` -/
 def zipReplace (it : Iter) (a1 a2 : ArraySized) (e1 e2 : Buf Nat) (m : Mem) :
